@@ -702,7 +702,7 @@ def c12(prop, tier, replay):
         report_read(prop, tier, res, cases, [], t0, known, "model_checking", "replay", 2)
         return
     stats, cases = [], []
-    for b in ("plain", "plaineof", "frag", "fragmf", "meta"):
+    for b in ("plain", "plaineof", "frag", "fragmf", "fragemsg", "meta"):
         if not os.path.exists(os.path.join(SPEC, "MC_Layout_%s1.cfg" % b)):
             continue
         st, mcs = gen_mc("MC_Layout", "MC_Layout_%s1" % b, wd, tier, coverage=False)
@@ -962,6 +962,10 @@ def c10(prop, tier, replay):
     st, fr = gen_mc("MC_Layout", "MC_Layout_frag1", wd, tier, coverage=False)
     stats.append(st)
     base += [c for c in fr if len(c["ops"]) == 0][:1]
+    # ... with event message boxes (version 0 and 1: C strings read byte by byte) in front of the moofs
+    st, em = gen_mc("MC_Layout", "MC_Layout_fragemsg0", wd, tier, coverage=False)
+    stats.append(st)
+    base += em[:1]
     st, me = gen_mc("MC_Meta", "MC_Meta_q", wd, tier, coverage=False)
     stats.append(st)
     base += [c for c in me if c["shape"] == "mdirqt" and c["title"] != "absent" and c["poster"] != "absent"][:1]
@@ -977,6 +981,11 @@ def c10(prop, tier, replay):
     for c in mux[:3 if tier == "quick" else 40]:
         c["kind"] = "mux " + c["id"]
         cases.append(c)
+    # a muxing session beyond 4 GiB (the media data header is rewritten in its 64-bit form at the end)
+    bigcalls = [{"op": "add", "conf": full_conf("avc", 1000, rng)}] + \
+        [{"op": "write", "t": 1, "len": 1500 << 20, "fill": 0x30 + k, "dur": big(1000), "cts": 0, "sync": k == 0, "valid": True} for k in range(3)]
+    cases.append({"kind": "mux 4.4 GiB", "big": True, "patterns": 1 if tier == "quick" else 2, "seed": 1, "pos": [],
+                  "cfg": {"major": s4("isom"), "minor": big(512), "brands": [s4("isom")], "timescale": big(1000)}, "calls": bigcalls})
     cases = [dict(c, id="io-%d" % i) for i, c in enumerate(cases)]
     res = validate_sharded("Trace_Stream", cases, wd, "fault", 6 if tier == "quick" else 16, runner="fault-run")
     nrun = res["events"] - 2 * len(cases)
@@ -1024,6 +1033,9 @@ def robust_bases(tier, wd, rng):
     st, fd = gen_mc("MC_Layout", "MC_Layout_fragdef0", wd, tier, coverage=False)
     stats.append(st)
     bases.append({"file": fd[0]["file"], "fields": fd[0]["fields"], "kind": "spec-rendered fragmented movie, run without per-sample sizes (tfhd default size)"})
+    st, fe = gen_mc("MC_Layout", "MC_Layout_fragemsg0", wd, tier, coverage=False)
+    stats.append(st)
+    bases.append({"file": fe[0]["file"], "fields": fe[0]["fields"], "kind": "spec-rendered fragmented movie with event message boxes"})
     st, sp = gen_mc("MC_Frag", "MC_Frag_q", wd, tier, coverage=False)
     stats.append(st)
     s0 = [c for c in sp if c["delivery"] == "split" and c["ntracks"] == 2 and c["nfrag"] == 2 and c["durMode"] == "per" and c["ctsMode"] == "v0"][0]
